@@ -191,6 +191,10 @@ def c01_child_summary_retraverses(chk, ex, name="C01.child.summary_retraverses")
         ok = len(uc) == 1 and not cps(st)
         if any(e.kind == "raised" and e.name == "child_func" for e in st.trace):
             continue  # U: a deterministic body that completed before completes again when re-traversed over its recorded children
+        if any(e.kind == "orphan_check_raised" for e in st.trace):
+            # the context is under a context that has completed in THIS invocation (C10): it is stopped before the re-traversal; still no record
+            P(chk, ex, path, name, pre, z3.BoolVal(not uc and not cps(st) and k == "raise"), "SUCCEEDED with replay_children under a completed context => stopped before the body, nothing sent")
+            continue
         if k == "val":
             ret = [e for e in st.trace if e.kind == "call" and e.name == "child_func"]
             goal = z3.BoolVal(ok)  # value is the body's return value
@@ -221,7 +225,7 @@ def amo(ex, st):
     return enum_is(cfg["step_semantics"], ex.eng.program.cls("config.StepSemantics"), "AT_MOST_ONCE_PER_RETRY")
 
 
-def c04(chk, ex):
+def c04(chk, ex, prefix="C04"):
     eng, rec0 = ex.eng, ex.inputs["rec0"]
     own = ex.inputs["own_id"]
     for path in ex.paths:
@@ -230,7 +234,7 @@ def c04(chk, ex):
         if not feasible_pre(ex, st, pre):
             continue
         uc = user_calls(st)
-        P(chk, ex, path, "C04.step.at_most_one_entry_per_call", pre, len(uc) <= 1, "at most one entry of the user function per process()")
+        P(chk, ex, path, f"{prefix}.step.at_most_one_entry_per_call", pre, len(uc) <= 1, "at most one entry of the user function per process()")
         for i, e in uc:
             before = [(j, c) for j, c in cps(st, "ok") if j < i]
             alts = []
@@ -240,7 +244,7 @@ def c04(chk, ex):
                     continue
                 alts.append(z3.And(action_is(eng, st, c, "START"), type_is(eng, st, c, "STEP"), sync_term(c), ops.values_equal(st, upd(st, c, "operation_id"), own),
                                    status_in(eng, st, lr[-1].rec, ["STARTED"])))
-            P(chk, ex, path, "C04.step.start_before_entry", pre, z3.Or(alts) if alts else F,
+            P(chk, ex, path, f"{prefix}.step.start_before_entry", pre, z3.Or(alts) if alts else F,
               "at-most-once: user function entered only after a synchronous START of this step was accepted in this call and the re-read record is STARTED")
         started = z3.And(pre, status_in(eng, st, rec0, ["STARTED"]))
         if feasible_pre(ex, st, started):
@@ -252,7 +256,7 @@ def c04(chk, ex):
                 goal = z3.And(goal, z3.BoolVal(isinstance(a[0], Ref) and isinstance(a[0].cls, ClassInfo) and a[0].cls.name == "StepInterruptedError"), zint(a[1]) == attempt_of(st, rec0) + 1)
                 term = [c for _, c in cps(st)]
                 goal = z3.And(goal, z3.BoolVal(k == "raise"))
-            P(chk, ex, path, "C04.step.interrupted_not_rerun", started, goal,
+            P(chk, ex, path, f"{prefix}.step.interrupted_not_rerun", started, goal,
               "at-most-once and record STARTED on entry => function not entered; strategy consulted once with StepInterruptedError and attempt+1; call raises")
 
 
@@ -312,7 +316,8 @@ def c12_step(chk, ex, prefix="C12"):
             all_c = cps(st)
             before = [(j, c) for j, c in all_c if not uc or j < uc[0][0]]
             start_failed = bool(before) and before[0][1].outcome != "ok"
-            if start_failed:
+            stopped_as_orphan = any(e.kind == "orphan_check_raised" for e in st.trace)   # C10: the enclosing context completed meanwhile
+            if start_failed or stopped_as_orphan:
                 goal = z3.BoolVal(not uc)
             else:
                 goal = z3.BoolVal(len(uc) == 1 and len(before) <= 1)
@@ -335,13 +340,13 @@ def c12_step(chk, ex, prefix="C12"):
             P(chk, ex, path, f"C12.{ex.kind}.pending_suspends", pend, goal, "record PENDING => no entry, no update, suspends (timed iff a next-attempt timestamp is recorded)")
 
 
-def c13_wfc(chk, ex):
+def c13_wfc(chk, ex, prefix="C13"):
     eng, rec0 = ex.eng, ex.inputs["rec0"]
     cfg = ex.inputs["cfg"]
     for path in ex.paths:
         k, v, st = path
         checks = [(i, e) for i, e in enumerate(st.trace) if e.kind == "call" and e.name == "check_func"]
-        P(chk, ex, path, "C13.wfc.one_poll_per_call", None, len(checks) <= 1, "at most one poll per call")
+        P(chk, ex, path, f"{prefix}.wfc.one_poll_per_call", None, len(checks) <= 1, "at most one poll per call")
         c = st.get(cfg)
         for i, e in checks:
             lr = last_read_before(st, i)
@@ -356,17 +361,17 @@ def c13_wfc(chk, ex):
                 goal = z3.And(has, any_eq(arg, init.t))
             else:
                 goal = z3.If(has, any_eq(arg, deser_term(sid, rv)) if rv is not None else F, any_eq(arg, init.t))
-            P(chk, ex, path, "C13.wfc.state_in", None, goal, "check receives the initial state on the first poll, else deserialize(serdes, recorded state) (initial state if that state cannot be deserialized)")
+            P(chk, ex, path, f"{prefix}.wfc.state_in", None, goal, "check receives the initial state on the first poll, else deserialize(serdes, recorded state) (initial state if that state cannot be deserialized)")
             strat = [(j, s) for j, s in strategy_calls(st, "wait_strategy") if j > i]
             raised_check = i + 1 < len(st.trace) and st.trace[i + 1].kind == "raised"
             if raised_check:
                 continue
             new_state = e.d.get("result")
-            P(chk, ex, path, "C13.wfc.strategy_after_check", None, len(strat) == 1, "the wait strategy is consulted exactly once after a successful check")
+            P(chk, ex, path, f"{prefix}.wfc.strategy_after_check", None, len(strat) == 1, "the wait strategy is consulted exactly once after a successful check")
             if len(strat) != 1:
                 continue
             j, s = strat[0]
-            P(chk, ex, path, "C13.wfc.attempt", None, z3.And(zint(s.args[1]) == attempt_of(st, lr) + 1, any_eq(s.args[0], new_state.t)), "strategy receives the state just returned and poll number = recorded attempt + 1")
+            P(chk, ex, path, f"{prefix}.wfc.attempt", None, z3.And(zint(s.args[1]) == attempt_of(st, lr) + 1, any_eq(s.args[0], new_state.t)), "strategy receives the state just returned and poll number = recorded attempt + 1")
             if j + 1 < len(st.trace) and st.trace[j + 1].kind == "raised":
                 continue
             sc, d = s.d["should"], s.d["delay"]
@@ -377,20 +382,20 @@ def c13_wfc(chk, ex):
             sd_ref, ser_str = ser
             good_serdes = (z3.IntVal(sd_ref.oid) == sid) if isinstance(sd_ref, Ref) else F
             if len(after) != 1:
-                P(chk, ex, path, "C13.wfc.decision_recorded", None, F, "exactly one update follows the decision")
+                P(chk, ex, path, f"{prefix}.wfc.decision_recorded", None, F, "exactly one update follows the decision")
                 continue
             x, cp = after[0]
             payload = upd(st, cp, "payload")
             base = z3.And(sync_term(cp), type_is(eng, st, cp, "STEP"), ops.values_equal(st, payload, ser_str), good_serdes)
             ret_ok = cp.outcome != "ok" or (k == "val" and is_sym(v, "any") and z3.eq(v.t, new_state.t))
-            P(chk, ex, path, "C13.wfc.stop", z3.Not(sc), z3.And(base, action_is(eng, st, cp, "SUCCEED"), z3.BoolVal(ret_ok)),
+            P(chk, ex, path, f"{prefix}.wfc.stop", z3.Not(sc), z3.And(base, action_is(eng, st, cp, "SUCCEED"), z3.BoolVal(ret_ok)),
               "strategy says stop => synchronous SUCCEED with serialize(serdes, last state); the call returns that state")
             so = strip_opt(upd(st, cp, "step_options"))
             delay_ok = zint(st.get(so)["next_attempt_delay_seconds"]) == z3.If(d < 1, 1, d) if isinstance(so, Ref) else F
             susp_ok = cp.outcome != "ok" or (k == "raise" and exc_class(v) == "TimedSuspendExecution")
-            P(chk, ex, path, "C13.wfc.continue_record", sc, z3.And(base, action_is(eng, st, cp, "RETRY"), delay_ok, z3.BoolVal(susp_ok)),
+            P(chk, ex, path, f"{prefix}.wfc.continue_record", sc, z3.And(base, action_is(eng, st, cp, "RETRY"), delay_ok, z3.BoolVal(susp_ok)),
               "strategy says continue => synchronous RETRY with the serialized state and delay max(1, d), then a timed suspension")
-        for statuses, nm in ((["SUCCEEDED", "FAILED"], "C13.wfc.no_repoll"), (["PENDING"], "C13.wfc.pending_no_poll")):
+        for statuses, nm in ((["SUCCEEDED", "FAILED"], f"{prefix}.wfc.no_repoll"), (["PENDING"], f"{prefix}.wfc.pending_no_poll")):
             pre = status_in(eng, st, rec0, statuses)
             if feasible_pre(ex, st, pre):
                 P(chk, ex, path, nm, pre, len(checks) == 0 and not cps(st), "a completed, failed or pending condition is not polled and sends nothing")
@@ -529,6 +534,41 @@ def c10_orphan_before_user(chk, ex):
         first_cp = [j for j, _ in cps(st)]
         P(chk, ex, path, f"C10.{ex.kind}.orphan_before_user", is_none(rec0), bool(first_cp) and first_cp[0] < uc[0][0],
           "first-time operation: its START is handed to the checkpoint pipeline (where an orphan is rejected) before the user function is entered")
+
+
+def c10_checked_before_user(chk, ex):
+    """EVERY entry of a user function (whatever the record on entry: absent, STARTED, READY, a summary to re-traverse) is preceded, in this call,
+    by an orphan check of this operation that passed: an update of this operation accepted by create_checkpoint, or raise_if_orphaned(own id)"""
+    own = ex.inputs["own_id"]
+    for path in ex.paths:
+        k, v, st = path
+        uc = user_calls(st)
+        if not uc:
+            continue
+        first = uc[0][0]
+        alts = []
+        for j, c in cps(st, "ok"):
+            if j < first:
+                alts.append(own_cp(ex, st, c))
+        for i, e in enumerate(st.trace[:first]):
+            if e.kind == "call" and e.name == "raise_if_orphaned":
+                raised = i + 1 < len(st.trace) and st.trace[i + 1].kind == "orphan_check_raised"
+                if not raised and e.args:
+                    alts.append(ops.values_equal(st, e.args[0], own))
+        P(chk, ex, path, f"C10.{ex.kind}.checked_before_user", None, z3.Or(alts) if alts else F,
+          "before the user function is entered, this call has put this operation through an orphan check that passed: one of its updates was accepted by create_checkpoint, or raise_if_orphaned(its id) returned - also when the record already existed (STARTED / READY / a summary) and no START is sent")
+
+
+def orphan_check_stops(chk, ex):
+    """raise_if_orphaned raised => the handler ends with that exception; no update and no user function afterwards"""
+    for path in ex.paths:
+        k, v, st = path
+        idx = next((i for i, e in enumerate(st.trace) if e.kind == "orphan_check_raised"), None)
+        if idx is None:
+            continue
+        later = [e for e in st.trace[idx + 1:] if e.kind in ("cp", "call")]
+        P(chk, ex, path, f"C10.{ex.kind}.orphan_check_stops", None, k == "raise" and v == st.trace[idx].exc and not later,
+          "an OrphanedChildException from raise_if_orphaned leaves the handler unchanged: no update, no user function afterwards")
 
 
 # ------------------------------------------------------------------------------------------------ C11
